@@ -12,6 +12,9 @@ PROBES = [
     ('queue_kirsch', 'kf2/hp3/P;push1;push2,pop;pop,push3', 5), ('queue_kirsch', 'bkf2s2/-/P;push1;push2,pop;pop,push3', 4),
     ('hm', 'set/hp3;emp1,emp3;emp2,era1;con2,era3', 5), ('hm', 'map2mc/ebr0;emp1,emp2;era1,goe3;trav', 5), ('hm', 'set/he3;emp1,emp2,emp3;trave1;era2,emp2', 6),
     ('vy', 'vy1iic/hp3;emp1,emp2,emp3,emp4;get4,get1;get2', 6),
+    # a lock-free reader against an eraser that is stopped inside its critical section (delete marker set, key being moved): complete bound-1 carriers
+    ('vy', 'vy1iic/ebr0;emp1,emp2,emp3;era1;get3,get1', 1, 400), ('vy', 'vy128iic/ebr0;emp1,emp2,emp3,emp4,emp5;era2;get5,get2', 1, 400),
+    ('vy', 'vy128sic/hp3;emp1,emp2,emp3,emp4;ext1;get4,get1', 2, 200),
     ('seqlock', 's2b16;;store2,update10;load,load', 2), ('seqlock', 's3b24;;store2,store3;load;load', 2),
     ('leftright', 'lr;;update10,update5;load,load', 2),
     ('reclaim', 'hp3;;swp0:0,acq1:1;acq0:0,cpy0:1,rst0,tch1', 5), ('reclaim', 'ebr0;;swp0:0,swp0:0;acq0:0,tch0', 5), ('reclaim', 'he3;;swp0:0,acq1:1;acqe0:0,tch0', 5),
@@ -61,8 +64,9 @@ def run(ctx):
     solo_models.run_models(ctx)
 
     def one(i):
-        drv, prog, every = PROBES[i]
-        xs = explore(ctx, 'solo_%d_%s' % (i, drv), drv, [prog], mode='solo', pb=1 if q else 2, max_exec=12 if q else 150,
+        drv, prog, every = PROBES[i][:3]
+        deep = PROBES[i][3] if len(PROBES[i]) > 3 else 0
+        xs = explore(ctx, 'solo_%d_%s' % (i, drv), drv, [prog], mode='solo', pb=1 if q else 2, max_exec=max(deep, 12) if q else max(150, 4 * deep),
                      extra='--solo-every %d' % (every if q else max(1, every // 2)), tmo=1500)
         return solo_validate(ctx, xs['name'], xs)
     run_parallel([lambda i=i: one(i) for i in range(len(PROBES))], maxw=14)
